@@ -25,7 +25,7 @@ RULE = ('A physically consistent trajectory (own closed-form integration of a sm
         'zeroes a sensor the architecture uses; distinct = case hash.')
 ASSUMPTIONS = ['recovery horizon W_f and tolerance rho_f per filter are calibrated constants (>= 10x margin over the worst observed)',
                'a filter that corrects at a bounded rate (Madgwick: beta rad/s) is given the time that rate needs for the worst frozen-gyro error']
-REQUIRED_LABELS = ['dropout:sensor=acc', 'dropout:sensor=mag', 'dropout:sensor=gyr', 'dropout:windows>=2']
+REQUIRED_LABELS = ['dropout:sensor=acc', 'dropout:sensor=mag', 'dropout:sensor=gyr', 'dropout:windows>=2', 'dropout:params=custom']
 
 DT = 0.01
 # (W_f samples after the last window, rho_f rad) -- calibrated, see DESIGN.md
@@ -40,6 +40,21 @@ RECOVERY = {
     'ROLEQ-MARG': (300, 1e-6),                                       # 1.4e-9
     'FKF-MARG': (300, 7e-2),                                         # 1.4e-2
     'Complementary-IMU': (300, 1e-9), 'Complementary-MARG': (300, 1e-9),   # 1e-15
+}
+
+
+
+# non-default settings that are at least as fast as the defaults (so that the calibrated recovery table still applies)
+PRESETS = {
+    'Madgwick': [{}, {'gain': 0.1}, {'gain_imu': 0.2, 'gain_marg': 0.2}, {'gain': 0.5}],
+    'Mahony': [{}, {'k_P': 2.0, 'k_I': 0.1}, {'k_P': 1.5, 'k_I': 0.3}, {'b0': [0.01, -0.01, 0.005]}],
+    'EKF': [{}, {'noises': [0.5, 0.2, 0.3]}, {'var_acc': 0.1}],
+    'UKF': [{}],
+    'AQUA': [{}, {'adaptive': True}, {'alpha': 0.05, 'beta': 0.05}, {'threshold': 0.95}],
+    'Fourati': [{}, {'gain': 0.3}],
+    'ROLEQ': [{}, {'weights': [1.0, 0.5]}, {'weights': [0.4, 1.6]}],
+    'FKF': [{}],
+    'Complementary': [{}, {'gain': 0.95}, {'gain': 0.8}],
 }
 
 
@@ -86,19 +101,19 @@ def _case(tier):
             length = draw(st.integers(1, 30))
             sensors = draw(st.sampled_from([['acc'], ['mag'], ['gyr'], ['acc', 'mag'], ['acc', 'gyr'], ['mag', 'gyr'], ['acc', 'mag', 'gyr'], ['acc'], ['mag']]))
             windows.append({'start': start, 'length': length, 'sensors': sensors})
-        return {'spec': i, 'seed': draw(st.integers(0, 2**31-1)), 'n': n, 'windows': windows,
+        return {'spec': i, 'preset': draw(st.integers(0, 3)), 'seed': draw(st.integers(0, 2**31-1)), 'n': n, 'windows': windows,
                 'frame': draw(st.sampled_from(['NED', 'ENU'])), 'dip': draw(gen.fl(-70.0, 70.0)), 'np_seed': draw(st.integers(0, 2**31-1))}
     return build()
 
 
-def run(spec, gyr, acc, mag, frame, dip, seed, q_true0=None):
+def run(spec, gyr, acc, mag, frame, dip, seed, q_true0=None, preset=None):
     np.random.seed(seed)
     q0 = None
     if q_true0 is not None and spec.q0 == 'q0':
         # start from the true attitude where the filter honours q0 (its own convention), so that the comparison does not
         # depend on how each constructor initialises itself
         q0 = np.array(q_true0) if spec.direction == 'inv' else oracle.qconj(q_true0)
-    obj = spec.build(gyr, acc, mag, frame, dip, {'Dt': DT}, q0)
+    obj = spec.build(gyr, acc, mag, frame, dip, dict(F.revive_params(preset or {}), Dt=DT), q0)
     return np.array(np.asarray(spec.Q(obj)), dtype=float)
 
 
@@ -132,10 +147,20 @@ def evaluate(case, ctx, calibrate=None):
     ctx.label(f'filter={key}')
     ctx.nt(nontriv)
     seed = int(case['np_seed'])
+    presets = PRESETS[spec.name]
+    preset = presets[int(case.get('preset', 0)) % len(presets)]
+    ctx.label('params=default' if not preset else 'params=custom')
+    if spec.name == 'Complementary':
+        # linear blend with gain g: a disturbance of at most 0.2 rad decays like g**k
+        rho_f = rho_f + 0.2*float(preset.get('gain', 0.9))**W_f
+    if spec.name == 'Madgwick' and preset:
+        # two runs of the fixed-length gradient step chatter independently with amplitude ~ beta*dt each
+        beta = max(v for k_, v in preset.items() if k_.startswith('gain'))
+        rho_f = max(rho_f, 6.0*beta*DT)
     tag = key + (f'[{frame}]' if len(spec.frames) > 1 else '')
     which = '+'.join(sorted({sn for w in case['windows'] for sn in w['sensors'] if uses[sn]})) or 'unused'
     try:
-        clean = run(spec, gyr, acc, mag, frame, dip, seed, Qt[0])
+        clean = run(spec, gyr, acc, mag, frame, dip, seed, Qt[0], preset)
     except Exception as e:
         ctx.label('clean_run_raises')       # C03's business
         return
@@ -143,7 +168,7 @@ def evaluate(case, ctx, calibrate=None):
         ctx.label('clean_run_invalid')
         return
     try:
-        faulty = run(spec, fg, fa, fm, frame, dip, seed, Qt[0])
+        faulty = run(spec, fg, fa, fm, frame, dip, seed, Qt[0], preset)
     except ValueError:
         ctx.label('refused_with_ValueError')
         return
